@@ -153,13 +153,19 @@ def make_cells(tier):
         T = draw(dyT)
         ops = [(draw(st.integers(0, n)), T * draw(st.integers(0, 64)) / 64.0) for _ in range(draw(st.integers(2, 4)))]
         return {"n": n, "m": m, "T": T, "P": [[draw(dy16) for _ in range(n + 1)] for _ in range(m)], "ops": ops,
-                "kind": draw(st.sampled_from(["DM", "DM", "numpy", "SX"]))}
+                "kind": draw(st.sampled_from(["DM", "DM", "numpy", "SX", "numpy_int"]))}
 
     def check_reuse(case):
         n, m, T = case["n"], case["m"], case["T"]
         require(1 <= n <= 8 and 1 <= m <= 3 and T >= 2.0 ** -21 and all(0 <= k <= n for k, _ in case["ops"]))
         P0 = np.array(case["P"], float)
-        P = {"DM": ca.DM(P0), "numpy": P0.copy(), "SX": ca.SX(ca.DM(P0))}[case["kind"]]
+        if case["kind"] == "numpy_int":  # integer-dtype ndarray of control points (seed C18-r6B): same curve as its float copy
+            P0 = np.rint(P0)
+            require(bool(np.all(np.abs(P0) < 2 ** 31)))
+            case = dict(case, P=P0.tolist())
+            P = P0.astype(np.int64)
+        else:
+            P = {"DM": ca.DM(P0), "numpy": P0.copy(), "SX": ca.SX(ca.DM(P0))}[case["kind"]]
         with cy.quiet():
             c = bez().Bezier(P, T)
             for step, (k, t) in enumerate(case["ops"]):
